@@ -1042,19 +1042,20 @@ def mapping_like(cm, path):
     return not (seq and not mp)
 
 
-def data_order_ops(fn, mappings=True):
+def data_order_ops(fn, mappings=True, opsf=None):
+    opsf = opsf or order_ops
     """order-changing operations on the data path of a helper function: expressions flowing into its return values
     (branch conditions such as `set(dir(o)).issuperset(..)` only select a path, they do not touch the data)"""
     rets = [n.value for n in ast.walk(fn) if isinstance(n, ast.Return) and n.value is not None]
     if rets:
         exprs, _ = backward_slice(fn.body, rets)
-        return order_ops(exprs, mappings)
+        return opsf(exprs, mappings)
     nodes = []
     for s in ordered_stmts(fn.body):
         if isinstance(s, (ast.If, ast.While, ast.Assert)):
             continue
         nodes += [h for h in header_exprs(s) if not isinstance(s, (ast.For,)) or h is s.iter]
-    return order_ops(nodes, mappings)
+    return opsf(nodes, mappings)
 
 
 def closure_functions(mod, fn, depth=0, seen=None):
@@ -1151,7 +1152,7 @@ def order_observed(cm):
     return out
 
 
-def dump_order_ops(cm, path):
+def dump_order_ops(cm, path, opsf=None):
     """order-destroying operations applied in `dump` (and in the serialisers it calls) to the value of the attribute path"""
     m2, c2, fn = cm.methods['dump']
     sn = cm.selfname(fn)
@@ -1178,22 +1179,31 @@ def dump_order_ops(cm, path):
                     if isinstance(t, ast.Name) and t.id not in tainted:
                         tainted.add(t.id)
                         changed = True
+        # loop / comprehension variables ranging over the attribute carry its elements
+        for n in ast.walk(fn):
+            gens = [n] if isinstance(n, ast.For) else (list(n.generators) if isinstance(n, (ast.ListComp, ast.SetComp, ast.DictComp, ast.GeneratorExp)) else [])
+            for g in gens:
+                if mentions(g.iter):
+                    for t in ast.walk(g.target):
+                        if isinstance(t, ast.Name) and t.id not in tainted:
+                            tainted.add(t.id)
+                            changed = True
     found, scanned = [], []
     mp = mapping_like(cm, path)
     for e in sl['exprs']:
-        for desc, node in order_ops([e], mp):
+        for desc, node in (opsf or order_ops)([e], mp):
             if mentions(node):
                 found.append('dump: ' + desc)
         for n in ast.walk(e):
             if isinstance(n, ast.Call) and any(mentions(a) for a in list(n.args) + [k.value for k in n.keywords]):
                 for (mm, ff) in _referenced_closure(m2, n):
                     scanned.append('%s.%s' % (mm.dotted.split('.')[-1], ff.name))
-                    found += ['%s.%s: %s' % (mm.dotted.split('.')[-1], ff.name, d) for d, _ in data_order_ops(ff, mp)]
+                    found += ['%s.%s: %s' % (mm.dotted.split('.')[-1], ff.name, d) for d, _ in data_order_ops(ff, mp, opsf)]
             if isinstance(n, ast.Call) and isinstance(n.func, ast.Attribute) and n.func.attr == 'dump':
                 p = cm.path_of(n.func.value, sn, {})
                 oc = cm.owned_class(top) if p == (top,) else None
                 if oc is not None and 'dump' in oc.methods and len(path) == 2:
-                    found += ['%s.dump: %s' % (oc.ci.qualname, d) for d in dump_order_ops(oc, path[1:])[0]]
+                    found += ['%s.dump: %s' % (oc.ci.qualname, d) for d in dump_order_ops(oc, path[1:], opsf)[0]]
                     scanned.append(oc.ci.qualname + '.dump')
     return sorted(set(found)), sorted(set(scanned))
 
@@ -1233,7 +1243,7 @@ def _restore_site_fn(mod, fn, depth):
     return None
 
 
-def load_order_ops(cm, path):
+def load_order_ops(cm, path, opsf=None):
     """order-destroying operations on the data that `load` puts into the attribute path; also key-type facts.
 
     -> (found [str], scanned [str], keyinfo dict | None) or None when the restoring code cannot be located"""
@@ -1253,12 +1263,12 @@ def load_order_ops(cm, path):
         if not seeds:
             return None
         exprs, _ = backward_slice(fn.body, seeds, sn)
-        found = ['load: ' + d for d, _ in order_ops(exprs, mp)]
+        found = ['load: ' + d for d, _ in (opsf or order_ops)(exprs, mp)]
         scanned = ['%s.load' % cm.ci.qualname]
         for e in exprs:
             for (mm, ff) in _referenced_closure(m2, e):
                 scanned.append('%s.%s' % (mm.dotted.split('.')[-1], ff.name))
-                found += ['%s.%s: %s' % (mm.dotted.split('.')[-1], ff.name, d) for d, _ in data_order_ops(ff, mp)]
+                found += ['%s.%s: %s' % (mm.dotted.split('.')[-1], ff.name, d) for d, _ in data_order_ops(ff, mp, opsf)]
         return sorted(set(found)), sorted(set(scanned)), None
     sub = path[1]
     site = None
@@ -1280,7 +1290,7 @@ def load_order_ops(cm, path):
     if not seeds:
         return None
     exprs, relevant = backward_slice(rfn.body, seeds)
-    found = ['%s.%s: %s' % (rm.dotted.split('.')[-1], rfn.name, d) for d, _ in order_ops(exprs, mp)]
+    found = ['%s.%s: %s' % (rm.dotted.split('.')[-1], rfn.name, d) for d, _ in (opsf or order_ops)(exprs, mp)]
     # key type: entries stored under the loop's key variable of a json mapping must be converted back
     keyinfo = {'stores': []}
     seed_names = {x.id for sd in seeds for x in ast.walk(sd) if isinstance(x, ast.Name)}
@@ -1312,3 +1322,116 @@ def int_keyed(cm, path):
             txt = ast.unparse(ann).replace(' ', '')
             return 'Dict[int' in txt or 'dict[int' in txt or 'Mapping[int' in txt
     return False
+
+
+# ======================================================================================== value preservation (C13: restart frame)
+# On the data path from a persisted attribute to the encoder, and from the decoder back to the attribute, no lossy
+# transformation may occur.  json.dumps / json.loads of Python floats (repr round trip) and ndarray.tolist() are exact (assumed).
+NARROW_DTYPES = {'np.float32', 'np.float16', 'np.half', 'np.single', 'jnp.float32', 'jnp.float16', 'jnp.bfloat16', 'numpy.float32', 'numpy.float16',
+                 "'float32'", "'float16'", '"float32"', '"float16"', "'f4'", "'f2'", 'int', 'bool', 'np.bool_', 'np.int_', "'int'",
+                 'np.int8', 'np.int16', 'np.int32', 'np.int64', 'np.uint8', 'np.uint16', 'np.uint32', 'np.uint64', 'jnp.int32', 'jnp.int64',
+                 "'int8'", "'int16'", "'int32'", "'int64'", "'uint8'", "'i4'", "'i8'"}
+ROUNDING_NP = {'round', 'around', 'round_', 'floor', 'ceil', 'trunc', 'rint', 'fix', 'clip', 'format_float_positional', 'format_float_scientific',
+               'array2string', 'array_str', 'array_repr', 'nan_to_num'}
+ROUNDING_MATH = {'floor', 'ceil', 'trunc'}
+_PREC_RE = __import__('re').compile(r'%[-+ #0]*\d*\.\d+[feEgG]|\{[^{}]*:[^{}]*\.\d+[feEgG%]?\}')
+
+
+def lossy_ops_dump(nodes, mappings=True):
+    return _lossy_ops(nodes, 'dump')
+
+
+def lossy_ops_load(nodes, mappings=True):
+    return _lossy_ops(nodes, 'load')
+
+
+def _lossy_ops(nodes, side):
+    """lossy value transformations syntactically present in the given AST nodes: [(description, node)].
+    On the load side int()/float() of a stored string is a parse, not a cast, and is not counted."""
+    out = []
+    for root in nodes:
+        for n in ast.walk(root):
+            if isinstance(n, ast.Call):
+                f = n.func
+                fsrc = ast.unparse(f)
+                dt = [ast.unparse(k.value) for k in n.keywords if k.arg == 'dtype']
+                if isinstance(f, ast.Attribute) and f.attr == 'astype' and n.args:
+                    t = ast.unparse(n.args[0])
+                    if t in NARROW_DTYPES:
+                        out.append(('cast %s narrows the stored values unless they already have that dtype' % ast.unparse(n)[:80], n))
+                elif fsrc in NARROW_DTYPES and fsrc not in ('int', 'bool') and n.args:
+                    out.append(('cast %s narrows the value' % ast.unparse(n)[:80], n))
+                elif fsrc.split('.')[0] in ('np', 'numpy', 'jnp') and f.attr in ('asarray', 'array', 'asanyarray', 'full', 'fromiter') and dt and dt[0] in NARROW_DTYPES \
+                        if isinstance(f, ast.Attribute) else False:
+                    out.append(('%s converts to the narrower dtype %s' % (ast.unparse(n)[:80], dt[0]), n))
+                elif isinstance(f, ast.Attribute) and fsrc.split('.')[0] in ('np', 'numpy', 'jnp') and f.attr in ROUNDING_NP:
+                    out.append(('%s rounds / clips / formats the value' % ast.unparse(n)[:80], n))
+                elif isinstance(f, ast.Attribute) and fsrc.split('.')[0] == 'math' and f.attr in ROUNDING_MATH:
+                    out.append(('%s rounds the value' % ast.unparse(n)[:80], n))
+                elif isinstance(f, ast.Attribute) and f.attr in ('round', 'clip') and fsrc.split('.')[0] not in ('np', 'numpy', 'jnp', 'math'):
+                    out.append(('%s rounds / clips the value' % ast.unparse(n)[:80], n))
+                elif isinstance(f, ast.Name) and f.id == 'round':
+                    out.append(('%s rounds the value' % ast.unparse(n)[:80], n))
+                elif isinstance(f, ast.Name) and f.id == 'int' and side == 'dump' and n.args and not isinstance(n.args[0], ast.Constant):
+                    out.append(('%s truncates a non-integer value' % ast.unparse(n)[:80], n))
+                elif isinstance(f, ast.Name) and f.id == 'format' and len(n.args) == 2 and isinstance(n.args[1], ast.Constant) and '.' in str(n.args[1].value):
+                    out.append(('%s formats with a fixed precision' % ast.unparse(n)[:80], n))
+                elif isinstance(f, ast.Attribute) and f.attr == 'format' and isinstance(f.value, ast.Constant) and isinstance(f.value.value, str) \
+                        and _PREC_RE.search(f.value.value):
+                    out.append(('%s formats with a fixed precision' % ast.unparse(n)[:80], n))
+            elif isinstance(n, ast.BinOp) and isinstance(n.op, ast.Mod) and isinstance(n.left, ast.Constant) and isinstance(n.left.value, str) \
+                    and _PREC_RE.search(n.left.value):
+                out.append(('%s formats with a fixed precision' % ast.unparse(n)[:80], n))
+            elif isinstance(n, ast.FormattedValue) and n.format_spec is not None and '.' in ast.unparse(n.format_spec):
+                out.append(('f-string field %s formats with a fixed precision' % ast.unparse(n)[:60], n))
+            elif isinstance(n, ast.Subscript) and isinstance(n.ctx, ast.Load):
+                sl = n.slice
+                parts = list(sl.elts) if isinstance(sl, ast.Tuple) else [sl]
+                if any(isinstance(x, ast.Slice) and (x.lower is not None or x.upper is not None) for x in parts):
+                    out.append(('truncating slice %s drops elements' % ast.unparse(n)[:60], n))
+    return out
+
+
+def dump_lossy_ops(cm, path):
+    return dump_order_ops(cm, path, lossy_ops_dump)
+
+
+def load_lossy_ops(cm, path):
+    return load_order_ops(cm, path, lossy_ops_load)
+
+
+def field_attribution(fn, node, field_names):
+    """fields of a whole-object dump (dict of fields) that an operation inside `fn` is applied to: the constant keys of the
+    subscript store / the constant tuple its loop variable ranges over; every field when this cannot be told"""
+    parents = {}
+    for p in ast.walk(fn):
+        for c in ast.iter_child_nodes(p):
+            parents[id(c)] = p
+    cur, stmt, loops = node, None, []
+    while id(cur) in parents:
+        cur = parents[id(cur)]
+        if isinstance(cur, ast.stmt) and stmt is None:
+            stmt = cur
+        if isinstance(cur, (ast.For, ast.comprehension, ast.DictComp, ast.ListComp)):
+            loops.append(cur)
+    keys = set()
+
+    def consts_of_loopvar(name):
+        got = set()
+        for lp in loops:
+            gens = [lp] if isinstance(lp, (ast.For, ast.comprehension)) else list(lp.generators)
+            for g in gens:
+                if isinstance(g.target, ast.Name) and g.target.id == name and isinstance(g.iter, (ast.Tuple, ast.List, ast.Set)) \
+                        and all(isinstance(e, ast.Constant) for e in g.iter.elts):
+                    got |= {e.value for e in g.iter.elts}
+        return got
+    for sub in ast.walk(stmt if stmt is not None else node):
+        if isinstance(sub, ast.Subscript):
+            k = sub.slice
+            if isinstance(k, ast.Constant) and k.value in field_names:
+                keys.add(k.value)
+            elif isinstance(k, ast.Name):
+                keys |= {x for x in consts_of_loopvar(k.id) if x in field_names}
+        elif isinstance(sub, ast.Attribute) and sub.attr in field_names and isinstance(sub.value, ast.Name) and sub.value.id in ('self',):
+            keys.add(sub.attr)
+    return sorted(keys) if keys else sorted(field_names)
